@@ -63,7 +63,7 @@ func (e *Exec) libModel(st *State, callee *ssa.Function, cc *ssa.CallCommon, arg
 	set := func(v Val) { e.setResult(st, dst, v) }
 	pos := cc.Pos()
 	switch name {
-	case "gopkg.in/inf.v0.NewDecBig", "gopkg.in/inf.v0.NewDec", "math/big.NewInt":
+	case "gopkg.in/inf.v0.NewDecBig", "gopkg.in/inf.v0.NewDec", "math/big.NewInt", "time.NewTimer", "time.NewTicker", "time.AfterFunc":
 		used()
 		r := e.freshVal(st, "newobj", resT)
 		e.assume(st, fmt.Sprintf("(not (= %s 0))", r.S))
